@@ -33,7 +33,8 @@ LEVEL_NOTE = ("CPython's datetime (fromtimestamp = modf, *1e6, round-half-even; 
               "binary64 arithmetic are modelled by hand and validated bit-for-bit on every run; strptime is modelled for the "
               "canonical field widths that str(datetime) writes; the Windows branch of epoch_time_to_utc_datetime is modelled from the "
               "Python text (str(float) of ms/1000 = the three decimals without trailing zeros: trusted, compared on every run) and "
-              "run with the module's `os` replaced by a stand-in named 'nt', not on a Windows build. Decimal-year theorems keep the "
+              "run with the module's `os` replaced by a stand-in named 'nt', not on a Windows build (repaired in /repo as D39; the "
+              "unrepaired branch is kept as toDatetimeNtOld with its kernel-checked findings). Decimal-year theorems keep the "
               "range 1697..2242.")
 DESIGN_REF = "DESIGN.md §4 C15"
 TECHNIQUE = "Lean 4 proof (Soft64 error analysis + integer arithmetic + omega/decide) with differential correspondence"
@@ -53,7 +54,9 @@ THEOREMS = ["Time.ms_to_dt_exact", "Time.dt_to_ms_floor", "Time.ms_roundtrip", "
             "Time.millisToDays_mono", "Time.daysToMillisF_mono", "Time.days_millis_whole",
             "Time.timeHorizonYears_mono", "Time.timeHorizonYears_nonneg", "Time.lengthInSeconds_eq",
             "Time.timedeltaFromYears_neg", "Time.timedeltaFromYears_whole",
-            "Time.create_utc_never_returns", "Time.create_utc_fixed_spec"]
+            "Time.create_utc_never_returns", "Time.create_utc_fixed_spec",
+            # phase 2: the code as repaired by D38 / D39
+            "Time.nt_repaired_agrees", "Time.nt_repaired_exact", "Time.create_utc_spec"]
 TRUSTED = ["Lean 4.33 kernel", "axioms: propext, Classical.choice, Quot.sound at most",
            "Soft64.fl64 is IEEE-754 binary64 round-to-nearest-even and CPython float * and / are that arithmetic "
            "(validated bit-for-bit on every generated operand)",
@@ -77,7 +80,11 @@ RULE = ("uniform integer milliseconds in 1900-01-01..2200-01-01; complete +-2000
         "correspondence; the weaker proved statements as oracle; outside the property's quantifier); explicit format arguments "
         "(16 string-shape x format-shape combinations, three separators); days <-> milliseconds, timedelta_from_years, "
         "create_utc_datetime, None pass-through, utc_now_*; time_horizon_years and length_in_seconds bit exact. Sub-classes on "
-        "which unchanged pyCSEP departs from the property are named in AWAITING_DECISION.")
+        "which unchanged pyCSEP departs from the property are named in AWAITING_DECISION. Phase 2: catalogs in every "
+        "representation of their event array (list of tuples; structured arrays with little- / big-endian integer or float "
+        "origin-time columns; strided views; UCERF3 event arrays and the merged .bin / .gz loaders; get_csep_format) in "
+        "sessions read / filter in place / assign another array to the same object, one catalog of > 65536 events per run; "
+        "float-typed milliseconds; the repaired Windows branch and create_utc_datetime asserted like every other class.")
 
 # sub-classes on which the UNCHANGED library deviates and a decision is pending (generator leaves the assertion out,
 # the observation is counted): see notes/C15.md "Observed on unchanged /repo"
@@ -85,16 +92,10 @@ AWAITING_DECISION = [
     # CatalogForecast.time_horizon_years is computed once in the constructor from start_epoch/end_epoch and is a plain
     # attribute: after start_time / end_time are re-assigned it still describes the old window
     "catalog-forecast:time_horizon_years-after-reassignment",
-    # wave 4: the `os.name == "nt" and epoch_time < 0` branch of epoch_time_to_utc_datetime (exercised here with the
-    # module's `os` replaced by a stand-in whose name is "nt"): `int(frac) * -1` reads the digits after the decimal point
-    # of str(ms / 1000) as milliseconds WITHOUT padding them to three places, so every negative epoch that is a multiple
-    # of 10 ms but not a whole second is converted to a wrong instant (-1500 -> 1969-12-31 23:59:58.995); and the branch
-    # returns a NAIVE datetime. Proved of the faithful model: Time.nt_exact_iff, Time.nt_finding_*, Time.nt_aware_iff.
-    "nt-branch:negative-epoch-multiple-of-10ms-wrong-instant",
-    "nt-branch:negative-epoch-naive-result",
-    # wave 4: create_utc_datetime(datetime) shadows the module `datetime` with its parameter; `datetime.timezone.utc` is
-    # then looked up on the argument: AttributeError for EVERY naive datetime (Time.create_utc_never_returns)
-    "create_utc_datetime:naive-argument-raises-AttributeError",
+    # (phase 2) the Windows branch of epoch_time_to_utc_datetime and create_utc_datetime were repaired in /repo (D39
+    # 19a6b81, D38 36eaa50): their classes are asserted like any other; witnesses in corpus/C15/d38_*.json, d39_*.json;
+    # the unrepaired code is kept as Time.toDatetimeNtOld / createUtcDatetimeOld with the kernel-checked findings
+    # Time.nt_exact_iff, Time.nt_finding_*, Time.create_utc_never_returns
 ]
 # input classes outside the property's quantifier (1900-01-01..2200-01-01) that are nevertheless run for the
 # correspondence with the model (and for the weaker statements PROVED of the model on the full range of datetime):
@@ -229,12 +230,40 @@ class Ctx:
         self.drv, self.pending = Driver(), []
 
 
+_GUARDED = {}
+
+
+def _guarded(fn):
+    """lesson 6: a deviation of the implementation that makes the EXAMINATION of its output fail (a value of another type,
+    shape or length than every correct implementation returns) is reported as a failure of the property with the call as
+    replay - never as a crash of the harness. Only exception kinds that such a deviation produces are caught."""
+    import functools
+
+    @functools.wraps(fn)
+    def wrapper(ctx, *args, **kwargs):
+        try:
+            return fn(ctx, *args, **kwargs)
+        except (AttributeError, TypeError, ValueError, IndexError, KeyError, OverflowError, ArithmeticError) as e:
+            import traceback
+            where = traceback.extract_tb(e.__traceback__)[-1]
+            case = _case(kind="guard", fn=fn.__name__, args=list(args), kwargs=kwargs)
+            try:
+                json.dumps(case)
+            except TypeError:
+                case = _case(kind="guard", fn=fn.__name__, args=repr(args)[:2000], kwargs={})
+            ctx.run.oracle_failure(case, f"{fn.__name__}: the implementation's output could not be examined "
+                                         f"({type(e).__name__}: {e}; {os.path.basename(where.filename)}:{where.lineno})")
+    _GUARDED[fn.__name__] = wrapper
+    return wrapper
+
+
 def _chunks(xs, n=CHUNK):
     for i in range(0, len(xs), n):
         yield xs[i:i + n]
 
 
 # ------------------------------------------------------------------------------------------------ ms -> dt -> ms
+@_guarded
 def check_ms_values(ctx, ms_list, tag, via="func", sorted_window=False):
     """ms -> datetime -> ms on a list of integer milliseconds. `via` selects the API surface."""
     from csep.utils import time_utils as tu
@@ -248,6 +277,8 @@ def check_ms_values(ctx, ms_list, tag, via="func", sorted_window=False):
             dts = cat.get_datetimes()
         elif via == "int64":
             dts = [tu.epoch_time_to_utc_datetime(numpy.int64(m)) for m in ms_list]
+        elif via == "float":          # the docstring's parameter type: integral milliseconds held in a float
+            dts = [tu.epoch_time_to_utc_datetime(numpy.float64(m) if i % 2 else float(m)) for i, m in enumerate(ms_list)]
         else:
             import csep
             dts = [csep.epoch_time_to_utc_datetime(m) for m in ms_list]
@@ -292,6 +323,7 @@ def check_ms_values(ctx, ms_list, tag, via="func", sorted_window=False):
 
 
 # ------------------------------------------------------------------------------------------------ dt -> ms -> dt
+@_guarded
 def check_dt_values(ctx, us_list, tag, mode="utc", sorted_window=False):
     """datetime (microsecond resolution) -> ms -> datetime. mode: naive | utc | zoneinfo"""
     from csep.utils import time_utils as tu
@@ -339,6 +371,7 @@ def check_dt_values(ctx, us_list, tag, mode="utc", sorted_window=False):
                 _case(kind="dt", op="c15_dt2ms", tag=tag, mode=mode, inputs=part_us))
 
 
+@_guarded
 def check_tz_reject(ctx, us, hours):
     """a datetime whose tzinfo is a non-zero UTC offset must be rejected with ValueError"""
     from csep.utils import time_utils as tu
@@ -364,6 +397,7 @@ def esc(s):
     return s.replace(" ", "_")
 
 
+@_guarded
 def check_strings(ctx, us, tag):
     from csep.utils import time_utils as tu
     import csep
@@ -415,6 +449,7 @@ def check_strings(ctx, us, tag):
 DY_TOL_US = 1000   # "recovers the instant to within a millisecond"
 
 
+@_guarded
 def check_decimal_years(ctx, us_list, tag, lattice=False):
     """us_list sorted ascending. lattice=True: consecutive entries are >= 1 ms apart -> strict increase demanded."""
     from csep.utils import time_utils as tu
@@ -459,6 +494,7 @@ def check_decimal_years(ctx, us_list, tag, lattice=False):
         ctx.ask("c15_decyear_inv " + ",".join(pd), pi, _case(kind="decyear", op="c15_decyear_inv", tag=tag, inputs=pd))
 
 
+@_guarded
 def check_forecast_epoch(ctx, us_a, us_b):
     """CatalogForecast.start_epoch / end_epoch are datetime_to_utc_epoch of the stored datetimes"""
     from csep.core.forecasts import CatalogForecast
@@ -496,6 +532,7 @@ def _mk_dt(us, mode):
     raise ValueError(mode)
 
 
+@_guarded
 def check_object_times(ctx, obj, steps, tag, ctor=True):
     """time-derived values of an OBJECT follow its datetime attributes: assign, read, re-assign, read again.
 
@@ -732,6 +769,7 @@ A_NT_NAIVE = "nt-branch:negative-epoch-naive-result"
 A_CREATE_UTC = "create_utc_datetime:naive-argument-raises-AttributeError"
 
 
+@_guarded
 def check_ms_values_nt(ctx, ms_list, tag, via="func", sorted_window=False):
     """ms -> datetime -> ms when the library believes it runs on Windows (os.name == "nt")."""
     from csep.utils import time_utils as tu
@@ -783,12 +821,11 @@ def check_ms_values_nt(ctx, ms_list, tag, via="func", sorted_window=False):
         prev = (m, u, waits_wrong)
     run.count(f"nt:{tag}:{via}", len(ms_list))
     for part_ms, part in zip(_chunks(ms_list), _chunks(exp)):
-        # the faithful model of the branch, or (entry by entry) the exact instant as an aware datetime, which is what the
-        # property demands and what the proposed repair returns: a repaired library stays green
-        ctx.ask_either("c15_ms2dt_nt " + ",".join(map(str, part_ms)), "c15_ms2dt_ntp " + ",".join(map(str, part_ms)),
-                       part, _case(kind="nt", op="c15_ms2dt_nt", tag=tag, key="ms", inputs=part_ms))
+        ctx.ask("c15_ms2dt_nt " + ",".join(map(str, part_ms)), part,
+                _case(kind="nt", op="c15_ms2dt_nt", tag=tag, key="ms", inputs=part_ms))
 
 
+@_guarded
 def check_far_range(ctx, ms_list, tag, sorted_window=False):
     """milliseconds of datetime's full range OUTSIDE the property's 1900..2200: bit-exact correspondence with the model;
     oracle = what is proved of the model there (Time.ms_to_dt_close_full: within 15 us; strictly monotone; the round trip
@@ -825,6 +862,7 @@ def check_far_range(ctx, ms_list, tag, sorted_window=False):
                                                                             inputs=part_ms))
 
 
+@_guarded
 def check_far_dt(ctx, us_list, tag):
     """datetime -> ms on datetime's full range (integer arithmetic: exact floor everywhere) + the civil fields"""
     from csep.utils import time_utils as tu
@@ -859,6 +897,7 @@ def _exc_name(f, *a, **k):
         return type(e).__name__, None
 
 
+@_guarded
 def check_small(ctx, sub, vals, tag):
     """the small conversions of time_utils: sub = m2d | d2m | d2mi | tdy | none | createutc | now"""
     from csep.utils import time_utils as tu
@@ -931,12 +970,10 @@ def check_small(ctx, sub, vals, tag):
                     run.count("awaiting-decision:create_utc_datetime-AttributeError")
                 else:
                     run.oracle_failure(case, f"create_utc_datetime(naive {dt_of(u, False).isoformat()}) -> {err or d!r}")
-            # the model of the function as it is, or of the function the docstring describes (a repaired library stays green)
-            ctx.ask_either(f"c15_createutc asis naive {u}", f"c15_createutc fixed naive {u}",
-                           [str(us_of(d)) if not err else err], dict(case, op="c15_createutc"))
+            ctx.ask(f"c15_createutc new naive {u}", str(us_of(d)) if not err else str(err), dict(case, op="c15_createutc"))
             err, d = _exc_name(tu.create_utc_datetime, dt_of(u, True))
             if err == "AssertionError":         # the documented precondition; anything else is only counted
-                ctx.ask(f"c15_createutc asis utc {u}", str(err), dict(case, op="c15_createutc"))
+                ctx.ask(f"c15_createutc new utc {u}", str(err), dict(case, op="c15_createutc"))
             else:
                 run.count(f"create_utc_datetime(aware):{err or 'returned'}")
     elif sub == "now":          # utc_now_datetime / utc_now_epoch: the current instant, UTC-aware, zone independent
@@ -955,6 +992,7 @@ def check_small(ctx, sub, vals, tag):
         raise ValueError(sub)
 
 
+@_guarded
 def check_explicit_format(ctx, us, sep, shape, tag):
     """strptime_to_utc_epoch / strptime_to_utc_datetime with an EXPLICIT format argument: sep in 'T', ' ', '/';
     shape = (string has fraction, string has +00:00, format has .%f, format has %z): matching formats must return the
@@ -990,6 +1028,7 @@ def check_explicit_format(ctx, us, sep, shape, tag):
             "none" if e2 else str(us_of(d)), dict(case, op="c15_parsex dt"))
 
 
+@_guarded
 def check_durations(ctx, pairs, tag):
     """derived durations, bit exact: CatalogForecast.time_horizon_years of a FRESH forecast (two true divisions of the
     epoch difference) and CSEPCatalog.length_in_seconds (total_seconds of the difference of the first and last datetime)"""
@@ -1082,6 +1121,180 @@ def _wave4(ctx, rng, quick, centres, k=1.0):
         prs.append((a, b))
     check_durations(ctx, prs, "durations")
 
+
+# ------------------------------------------------------------------------------------------------ phase 2: catalogs
+# how the events of a catalog are held: every representation pyCSEP itself produces or accepts for `data=`
+CAT_REPS = ["csep-list", "csep-<i8", "csep->i8", "csep-<f8", "csep->f8", "csep-strided", "ucerf3-data-v1", "ucerf3-data-v2",
+            "ucerf3-bin", "ucerf3-gz", "ucerf3-csep-format"]
+# not used: UCERF3Catalog.load_catalog (single-catalog file): it reads version, header AND events each from offset 0 of
+# the file (numpy.fromfile(filename, ...) three times), so no layout makes it return the events; reader, not a conversion
+
+
+def _u3_bytes(mss, version):
+    """one catalog in the UCERF3-ETAS binary layout (big-endian): version, header, events"""
+    import numpy
+    from csep.core.catalogs import UCERF3Catalog
+    ev = numpy.zeros(len(mss), dtype=UCERF3Catalog._get_catalog_dtype(version))
+    ev["origin_time"] = mss
+    ev["magnitude"] = 3.0
+    ev["rupture_id"] = numpy.arange(len(mss))
+    hd = numpy.zeros(1, dtype=UCERF3Catalog._get_header_dtype(version))
+    hd["catalog_size"] = len(mss)
+    return numpy.array([version], dtype=">i2").tobytes() + hd.tobytes() + ev.tobytes(), ev
+
+
+def _make_catalog(rep, mss, tmp):
+    """a catalog object holding events at the origin times `mss` (ms) in the representation `rep`"""
+    import gzip
+    import numpy
+    from csep.core.catalogs import CSEPCatalog, UCERF3Catalog
+    n = len(mss)
+    if rep == "csep-list":
+        return CSEPCatalog(data=[(str(i), m, 0.0, 0.0, 0.0, 1.0) for i, m in enumerate(mss)])
+    if rep == "csep-strided":
+        big = numpy.zeros(2 * n + 1, dtype=CSEPCatalog.dtype)
+        big["origin_time"] = -777777777777
+        v = big[1::2]
+        v["origin_time"] = mss
+        v["magnitude"] = 1.0
+        return CSEPCatalog(data=v)
+    if rep.startswith("csep-"):
+        code = rep[5:]
+        fl = code[0] + "f8"
+        dt = numpy.dtype([("id", "S256"), ("origin_time", code), ("latitude", fl), ("longitude", fl), ("depth", fl),
+                          ("magnitude", fl)])
+        arr = numpy.zeros(n, dtype=dt)
+        arr["origin_time"] = mss
+        arr["magnitude"] = 1.0
+        return CSEPCatalog(data=arr)
+    version = 1 if rep.endswith("v1") else (3 if rep == "ucerf3-gz" else 2)
+    raw, ev = _u3_bytes(mss, version)
+    if rep.startswith("ucerf3-data"):
+        return UCERF3Catalog(data=ev)
+    if rep == "ucerf3-csep-format":
+        return UCERF3Catalog(data=ev).get_csep_format()
+    # merged file of two catalogs (the wanted one second): .bin and .gz loaders
+    other, _ = _u3_bytes([1, 2, 3], 1)
+    blob = numpy.array([2], dtype=">i4").tobytes() + other + raw
+    fn = os.path.join(tmp, "set." + ("bin" if rep == "ucerf3-bin" else "gz"))
+    with (open if rep == "ucerf3-bin" else gzip.open)(fn, "wb") as fh:
+        fh.write(blob)
+    return list(UCERF3Catalog.load_catalogs(fn))[1]
+
+
+@_guarded
+def check_catalog_times(ctx, steps, tag):
+    """the time-derived values of a catalog, whatever array holds its events. steps = [[rep, [ms, ...], op], ...]: the
+    catalog of each step is built in representation `rep` (byte order / dtype of the origin_time column, strided view,
+    UCERF3 binary layouts through the three loaders); op = 'read' | 'filter' (in-place time filter first, then read) |
+    'assign' (the array is assigned to the PREVIOUS step's catalog object when both are CSEP catalogs).
+    Every read (twice): get_epoch_times, get_datetimes, start_time / end_time, length_in_seconds, the datetime column of
+    to_dataframe(with_datetime=True) must describe exactly the current events."""
+    import tempfile
+    import shutil
+    run = ctx.run
+    case = _case(kind="cattimes", steps=steps, tag=tag)
+    run.case(case, ("cattimes", json.dumps(steps), _TZ))
+    tmp = tempfile.mkdtemp(prefix="c15cat")
+    fails = []
+    prev = None
+    try:
+        for k, (rep, mss, op) in enumerate(steps):
+            run.count(f"cattimes:{rep}")
+            where = f"step {k} ({rep}, {op}, {len(mss)} events)"
+            try:
+                cat = _make_catalog(rep, mss, tmp)
+                if op == "assign" and prev is not None and rep.startswith("csep-") and rep != "csep-list" \
+                        and type(prev).__name__ == "CSEPCatalog":
+                    prev.catalog = cat.catalog          # the setter re-computes the statistics
+                    cat = prev
+                cur = list(mss)
+                if op == "filter" and cur:
+                    cut = sorted(cur)[len(cur) // 2]
+                    cat.filter(f"origin_time >= {cut}")
+                    cur = [m for m in cur if m >= cut]
+                for rep_read in (0, 1):
+                    ep = [int(x) for x in cat.get_epoch_times()]
+                    if ep != cur:
+                        fails.append(f"{where}: get_epoch_times {ep[:5]}… are not the events' origin times {cur[:5]}…")
+                        break
+                    dts = cat.get_datetimes()
+                    got = []
+                    for m, d in zip(cur, dts):
+                        if not isinstance(d, _dt.datetime) or d.tzinfo is None or d.utcoffset() != _dt.timedelta(0):
+                            fails.append(f"{where}: get_datetimes gives {d!r} for {m} ms (not a UTC-aware datetime)")
+                            break
+                        got.append(us_of(d))
+                    else:
+                        if len(dts) != len(cur) or got != [1000 * m for m in cur]:
+                            bad = next((i for i, (g, m) in enumerate(zip(got, cur)) if g != 1000 * m), None)
+                            fails.append(f"{where}: get_datetimes: {len(dts)} datetimes for {len(cur)} events; first "
+                                         f"difference at event {bad}: {dts[bad].isoformat() if bad is not None else None} "
+                                         f"for {cur[bad] if bad is not None else None} ms")
+                    if fails:
+                        break
+                    for name, want in (("start_time", min(cur) if cur else None), ("end_time", max(cur) if cur else None)):
+                        g = getattr(cat, name)
+                        if want is None:
+                            if g is not None:
+                                fails.append(f"{where}: {name} of an empty catalog is {g!r}")
+                        elif not isinstance(g, _dt.datetime) or g.tzinfo is None or us_of(g) != 1000 * want:
+                            fails.append(f"{where}: {name} = {g!r}, the events {'start' if name[0] == 's' else 'end'} at {want} ms")
+                    if cur:
+                        ln = cat.length_in_seconds()
+                        if float(ln) != (cur[-1] - cur[0]) / 1000:
+                            fails.append(f"{where}: length_in_seconds = {ln!r}, first and last event are "
+                                         f"{(cur[-1] - cur[0]) / 1000!r} s apart")
+                        df = cat.to_dataframe(with_datetime=True)
+                        col = [(int(x.value) // 1000 if hasattr(x, "value") else us_of(x)) for x in df["datetime"]]
+                        if col != [1000 * m for m in cur]:
+                            fails.append(f"{where}: to_dataframe(with_datetime=True): the datetime column does not hold "
+                                         f"the events' instants")
+                    if fails:
+                        break
+                if fails:
+                    break
+                if cur:
+                    samp = cur if len(cur) <= 200 else cur[:50] + cur[-50:]
+                    dsamp = dts if len(cur) <= 200 else dts[:50] + dts[-50:]
+                    ctx.ask("c15_ms2dt " + ",".join(map(str, samp)), [str(us_of(d)) for d in dsamp],
+                            dict(case, op="c15_ms2dt", key="ms", inputs=samp))
+                prev = cat
+            except Exception as e:
+                # whatever the implementation raises or returns in an unexpected shape is an output, not a harness crash
+                fails.append(f"{where}: {type(e).__name__}: {e}")
+                break
+    finally:
+        shutil.rmtree(tmp, ignore_errors=True)
+    for f in fails[:1]:
+        run.oracle_failure(case, f)
+
+
+def gen_catalog_times(rng, big=False):
+    def times(k):
+        out = []
+        for _ in range(k):
+            r = rng.random()
+            out.append(rng.choice([0, -1, 1, 999, -1000, -1500, -1097606850620, MS_LO, MS_HI]) if r < 0.2
+                       else rng.randrange(MS_LO, MS_HI))
+        return out
+    steps = []
+    for _ in range(rng.randint(1, 3)):
+        rep = rng.choice(CAT_REPS)
+        k = rng.choice([0, 1, 1, 2, 3, 6])
+        if rep.startswith("ucerf3") and k == 0 and rep not in ("ucerf3-data-v1", "ucerf3-data-v2"):
+            k = 1
+        mss = times(k)
+        if rng.random() < 0.5:
+            mss.sort()
+        steps.append([rep, mss, rng.choice(["read", "read", "filter", "assign"])])
+    if big:
+        # more than 2^16 events (cheap: an arithmetic progression with numpy-free integers)
+        n = 65536 + rng.randrange(1, 5000)
+        a = rng.randrange(MS_LO, MS_HI - 10 ** 9)
+        steps = [[rng.choice(["csep->i8", "csep-<i8", "ucerf3-data-v2"]), [a + 7919 * i for i in range(n)], "read"]]
+    return steps
+
 # ------------------------------------------------------------------------------------------------ driver
 def _corpus(ctx):
     d = os.path.join(VERIF, "corpus", "C15")
@@ -1092,11 +1305,18 @@ def _corpus(ctx):
                 try:
                     c = json.load(open(os.path.join(d, fn)))
                     c = c.get("case", c)
-                    if "ms" in c and isinstance(c["ms"], int):
+                    if "ms" in c and isinstance(c["ms"], int) and c.get("kind") in (None, "ms"):
                         ms.append(c["ms"])
                     elif c.get("kind") == "objtimes":
                         with local_tz(c.get("tz")):
                             check_object_times(ctx, c["obj"], c["steps"], "corpus", c.get("ctor", True))
+                    elif c.get("kind") == "nt":
+                        check_ms_values_nt(ctx, [int(x) for x in c["ms"]] if isinstance(c["ms"], list) else [int(c["ms"])],
+                                           "corpus", sorted_window=False)
+                    elif c.get("kind") == "small":
+                        check_small(ctx, c["sub"], c["vals"], "corpus")
+                    elif c.get("kind") == "cattimes":
+                        check_catalog_times(ctx, c["steps"], "corpus")
                 except Exception:
                     pass
     ms = sorted(set(ms))
@@ -1117,7 +1337,8 @@ def run(run, rng, tier):
     third = n_uni // 10
     check_ms_values(ctx, uni[:third], "uniform", via="catalog")
     check_ms_values(ctx, uni[third:2 * third], "uniform", via="int64")
-    check_ms_values(ctx, uni[2 * third:], "uniform", via="func")
+    check_ms_values(ctx, uni[2 * third:3 * third], "uniform", via="float")
+    check_ms_values(ctx, uni[3 * third:], "uniform", via="func")
     check_ms_values(ctx, [MS_LO, MS_LO + 1, MS_HI - 1, MS_HI, 0, 1, -1, 999, 1000, -999, -1000, -1001], "edges")
     ctx.flush()
 
@@ -1211,6 +1432,11 @@ def run(run, rng, tier):
     ctx.flush()
     run.extra["decimal_year_lattice_years"] = dyears
 
+    # -- phase 2: catalogs in every representation of their event array (byte order, dtype, strides, UCERF3 layouts)
+    for i in range(150 if quick else 3000):
+        check_catalog_times(ctx, gen_catalog_times(rng, big=(i == 0)), "catalogs")
+    ctx.flush()
+
     # -- wave 4: Windows branch, full range of datetime, small conversions, explicit formats, durations
     _wave4(ctx, rng, quick, centres)
     ctx.flush()
@@ -1276,6 +1502,8 @@ def _sample_all(ctx, rng, quick, centres):
     check_decimal_years(ctx, sorted(set(rng.randrange(MS_LO, MS_HI) * 1000 + rng.choice([0, rng.randrange(1000)])
                                         for _ in range(1200 * k))), "tz-uniform")
     _wave4(ctx, rng, quick, centres, k=0.04)
+    for _ in range(10 if quick else 60):
+        check_catalog_times(ctx, gen_catalog_times(rng), "tz-catalogs")
     ctx.run.count(f"local-tz:{zone}:utcoffset-now={-time.timezone}")
 
 
@@ -1308,6 +1536,10 @@ def _replay(run, case):
         check_decimal_years(ctx, [int(x) for x in case["us"]], "replay", lattice=True)
     elif kind == "forecast":
         check_forecast_epoch(ctx, int(case["us"][0]), int(case["us"][1]))
+    elif kind == "guard" and case.get("fn") in _GUARDED and isinstance(case.get("args"), list):
+        _GUARDED[case["fn"]](ctx, *case["args"], **case.get("kwargs", {}))
+    elif kind == "cattimes":
+        check_catalog_times(ctx, case["steps"], "replay")
     elif kind == "nt":
         check_ms_values_nt(ctx, [int(x) for x in case.get("all", [case["ms"]])] if case.get("via") == "catalog"
                            else [int(case["ms"])], "replay", via=case.get("via", "func"))
